@@ -179,6 +179,8 @@ Fixpoint run_fuel (fuel : nat) (op : string) (args : list val) : val :=
       | _ => VBad end
     else if tag_is name "c16" then
       match args with [VB p] => ob_c16 sel p | _ => VBad end
+    else if tag_is name "c19p" then
+      match args with [VB a; VB b] => VC "c19p" [VBool (o_eq E a b); e_ord (o_cmp E a b); VBool true] | _ => VBad end
     else if tag_is name "c17" then
       match args with
       | [VB p] => VC "c17" [ob_is_valid E typed p; ob_comp_valid E typed p; ob_join_checked E [] p]
@@ -277,6 +279,25 @@ Definition check (op : string) (args : list val) (out : val) : N :=
     match args with
     | [VB p; VB sched] => match d_c01 out with Some o => ob (check_c01 p (e_dirs sched) o) | None => 0 end
     | _ => 0
+    end
+  else if tag_is name "c14c" then
+    (* conversions between the families succeed exactly on valid UTF-8 and keep the bytes (no inconsistency list) *)
+    match args, out with [VB p], VC t [VBool ok] => ob (tag_is t "c14c" && Bool.eqb ok (utf8_valid p)) | _, _ => 0 end
+  else if tag_is name "c19" then
+    match args, out with
+    | [VB p], VC t [ts; VB lo; VB di; VBool all_ok] =>
+        ob (tag_is t "c19" && all_ok
+            && val_eqb ts (if utf8_valid p then VSome (VB p) else VN)
+            && beqN lo (lossy p) && beqN di (lossy p))
+    | _, _ => 0
+    end
+  else if tag_is name "c15d" then
+    match args, out with
+    | [VB p], VC t [VBool w] =>
+        ob (tag_is t "c15d" &&
+            Bool.eqb w (match p with b :: _ => N.eqb b 92 | [] => false end
+                        || match wprefix_grammar p with Some _ => true | None => false end))
+    | _, _ => 0
     end
   else if tag_is name "pair" then oracle_pair suffix args out
   else if tag_is name "same" then
